@@ -165,6 +165,7 @@ func runConcCase(c *Case, env *Env) *Result {
 		return res
 	}
 	sched.WatchMutexes(shared)
+	ws.SizeAlone = shared.Size()
 
 	// solo merge output (on a private copy, so the shared view's caches stay cold)
 	var mergeSegs []segment.Segment
